@@ -20,6 +20,7 @@ import (
 	"syscall"
 	"testing"
 
+	"github.com/tailscale/setec/types/api"
 	"github.com/tink-crypto/tink-go/v2/aead"
 	"github.com/tink-crypto/tink-go/v2/insecurecleartextkeyset"
 	"github.com/tink-crypto/tink-go/v2/keyset"
@@ -103,7 +104,8 @@ func TestC03(t *testing.T) {
 					continue
 				}
 				rng := r.Rand(uint64(h))
-				path := filepath.Join(dir, fmt.Sprintf("h%d.db", h))
+				os.MkdirAll(filepath.Join(dir, fmt.Sprintf("h%d", h)), 0o700)
+				path := filepath.Join(dir, fmt.Sprintf("h%d", h), "db")
 				key := realdb.DummyKey(fmt.Sprintf("c03-%d", h))
 				d, err := realdb.Open(path, key)
 				if err != nil {
@@ -114,9 +116,26 @@ func TestC03(t *testing.T) {
 				var trace []string
 				for i, n := 0, 20+rng.IntN(11); i < n; i++ {
 					op := ops.Gen(rng, m, cfg)
-					want := ops.ApplyModel(m, nil, true, op)
-					got := ops.ApplyReal(d, su, op)
-					trace = append(trace, fmt.Sprintf("%s -> %s", op, got))
+					ioFails := op.Kind.Mutating() && rng.IntN(10) == 0
+					var want, got ops.Result
+					if ioFails {
+						// the file system fails during this call: whatever it reports, only acknowledged effects may survive a restart
+						realdb.BreakDir(path, func() { got = ops.ApplyReal(d, su, op) })
+						if got.Class == refmodel.OK {
+							probe := m.Clone()
+							if ops.ApplyModel(probe, nil, true, op); probe.CanonFull() != m.CanonFull() {
+								r.Violation("io-failure-reported-success", h, fmt.Sprintf("history %d (%s): the save could not be written but the call reported success", h, op), map[string]any{"history": trace})
+								break
+							}
+						}
+						want = got
+						trace = append(trace, fmt.Sprintf("%s (file system fails) -> %s", op, got))
+						r.Count("restarts_after_io_failure", 1)
+					} else {
+						want = ops.ApplyModel(m, nil, true, op)
+						got = ops.ApplyReal(d, su, op)
+						trace = append(trace, fmt.Sprintf("%s -> %s", op, got))
+					}
 					fail := func(key, msg string) {
 						r.Violation(key, h, fmt.Sprintf("history %d after step %d (%s): %s", h, i, op, msg), map[string]any{"history": trace})
 					}
@@ -184,6 +203,11 @@ func TestC03(t *testing.T) {
 		}(w)
 	}
 	wg.Wait()
+	if r.Only < 0 {
+		for i := 0; i < r.N(30, 600); i++ {
+			concurrentWriters(t, r, dir, i)
+		}
+	}
 
 	// ---- fixtures written by the pinned commit ----
 	fdir := filepath.Join(os.Getenv("VERIF_DIR"), "fixtures")
@@ -265,6 +289,67 @@ func TestC03(t *testing.T) {
 			r.Violation("fixture-counter-lost", -1, name+": "+err.Error(), map[string]any{"fixture": name})
 		}
 	}
-	r.Require("histories", "restarts", "restarts_after_acknowledged_mutation", "restarts_after_failed_mutation", "restarts_with_newest_version_deleted", "fixtures")
+	r.Require("restarts_after_io_failure", "restarts_after_concurrent_writes", "histories", "restarts", "restarts_after_acknowledged_mutation", "restarts_after_failed_mutation", "restarts_with_newest_version_deleted", "fixtures")
 	r.Rule("seeded random histories of 20-30 operations over 3 ordinary names (+ empty and reserved), with a restart (second db.Open of the same path, full-state comparison with the model, per-name next-version probe on a copy, before/after hash+inode+mtime of the file) after EVERY operation; the history continues on the reopened handle half of the time. Plus 6 fixture databases written by the pinned commit. Distinct = (kind of the operation preceding the restart, its outcome class, number of names) and one class per fixture")
+}
+
+// concurrentWriters: several clients write at the same time; once every call has been acknowledged the
+// file must hold all of it (the order in which snapshots reach the disk must follow the order of the changes).
+func concurrentWriters(t *testing.T, r *evid.Run, dir string, idx int) {
+	r.Eval(1)
+	os.MkdirAll(filepath.Join(dir, fmt.Sprintf("cw%d", idx)), 0o700)
+	path := filepath.Join(dir, fmt.Sprintf("cw%d", idx), "db")
+	key := realdb.DummyKey("c03-cw")
+	d, err := realdb.Open(path, key)
+	if err != nil {
+		t.Error(err)
+		return
+	}
+	su := realdb.Super()
+	const G, K = 8, 6
+	var wg sync.WaitGroup
+	start := make(chan struct{})
+	for g := 0; g < G; g++ {
+		wg.Add(1)
+		go func(g int) {
+			defer wg.Done()
+			<-start
+			for k := 0; k < K; k++ {
+				name := fmt.Sprintf("w%d", g)
+				d.Put(su, name, []byte(fmt.Sprintf("%d-%d", g, k)))
+				if k%3 == 2 {
+					d.Activate(su, name, api.SecretVersion(k+1))
+				}
+				if k == K-1 {
+					d.DeleteVersion(su, name, 2)
+				}
+			}
+		}(g)
+	}
+	close(start)
+	wg.Wait()
+	live, err := realdb.Dump(d)
+	if err != nil {
+		r.Violation("live-state-inconsistent", -1, err.Error(), nil)
+		return
+	}
+	d2, err := realdb.Open(path, key)
+	if err != nil {
+		r.Violation("reopen-fails", -1, fmt.Sprintf("concurrent writers %d: %v", idx, err), nil)
+		return
+	}
+	re, err := realdb.Dump(d2)
+	r.Count("restarts_after_concurrent_writes", 1)
+	r.Distinct("restart-after/concurrent-writers")
+	if err != nil || re.Canon() != live.Canon() {
+		r.Violation("restart-state-differs", -1, fmt.Sprintf("concurrent writers %d: every call had been acknowledged, the running process serves %s, but after a restart the file holds %v (err %v)", idx, live.Canon(), re.Canon(), err), nil)
+		return
+	}
+	for g := 0; g < G; g++ {
+		s := live.S[fmt.Sprintf("w%d", g)]
+		if s == nil || len(s.Versions) != K-1 || s.Active != K {
+			r.Violation("live-state-wrong", -1, fmt.Sprintf("concurrent writers %d: client %d's acknowledged writes are not all there: %+v", idx, g, s), nil)
+			return
+		}
+	}
 }
